@@ -42,6 +42,7 @@ from common import Violation
 
 TITLE = "a block stays usable and unchanged across library calls"
 LEVEL = "proof"
+DOMAINS = ["Hist", "Design"]
 
 STRATEGIES = ["IterateSATGen", "RandomGen", "CMSGen", "UniGen", "IterateGen", "UniformGen", "SMGen"]
 PLAIN_OPS = ["print", "tabulate", "savecsv", "totuples", "todicts"]
@@ -458,24 +459,11 @@ def judge_history(program, ops, h, ds):
     return found, pending
 
 
-_ORACLE = [None]
-
-
 def oracle_lines(lines):
-    """`valid` is served by the full binary and by spmodel_Design; a private binary of another domain lacks it."""
+    """The reference semantics is served by the Design driver binary."""
     if not lines:
         return []
-    if _ORACLE[0] is None:
-        out = common.run_model(lines)
-        if not any(o.startswith("!unknown-command") for o in out):
-            return out
-        _ORACLE[0] = os.path.join(common.VERIF, "extract", "spmodel_Design")
-    saved = common.SPMODEL
-    common.SPMODEL = _ORACLE[0]
-    try:
-        return common.run_model(lines)
-    finally:
-        common.SPMODEL = saved
+    return common.run_model(lines, domain="Design")
 
 
 def oracle_judge(ds, samples):
